@@ -165,10 +165,10 @@ def cases(tier):
                 if tier == "quick":
                     # week = previous()/next() day steps + start_of/end_of("day"): with a zone every step multiplies the
                     # zone branches; the quick tier decides weeks on utc/fixed and the zone behaviour on the day unit
-                    kinds = ("utc", "fixed") if unit == "week" else ("zone", "utc")
+                    kinds = ("utc",) if unit == "week" else ("zone", "utc")
                 for kind in kinds:
                     for shape in (("gap", "overlap") if kind == "zone" else (None,)):
-                        w = (2000, 2000) if kind == "zone" else win
+                        w = (2000, 2000) if (kind == "zone" or (unit == "week" and tier == "quick")) else win
                         out.append(dict(name=f"{which}_of {unit}{wk} {kind} {shape or ''}", fn=datetime_unit,
                                         params=dict(kind=kind, unit=unit, which=which, ylo=w[0], yhi=w[1], shape=shape, ws=ws, we=we),
                                         bounds=f"every valid {kind} DateTime (both folds) in years {w[0]}..{w[1]}"
